@@ -948,8 +948,11 @@ def observe(ix, cfgs, stored, colexp, deleted, stats):
                 if dn is not None:
                     bad(None, "docs", "deleted-doc-found", "deleted doc k%d still found" % i)
                 continue
-            if dn is None or dn in docnum.values():
-                raise core.HarnessError("key lookup failed for k%d: %r" % (i, dn))
+            if dn is None or dn in docnum.values() or r.is_deleted(dn):
+                # the documents are identified through this lookup: without it
+                # nothing else can be attributed
+                bad(None, "docs", "key-lookup-failed", "document_number(k=k%d) returned %r for a live document" % (i, dn))
+                return out
             docnum[i] = dn
 
         # ---- stored fields
@@ -1137,7 +1140,9 @@ def observe(ix, cfgs, stored, colexp, deleted, stats):
             hits = {}
             bad(None, "hit", exc_kind(e), "search(Every()) raised %r" % (e,))
         if hits and set(hits) != set(docnum.values()):
-            raise core.HarnessError("Every() returned %r for docs %r" % (sorted(hits), docnum))
+            bad(None, "hit", "every-mismatch", "search(Every()) returned docs %r, live documents are %r"
+                % (sorted(hits), sorted(docnum.values())))
+            return out
         for i in live:
             h = hits.get(docnum[i])
             if h is None:
